@@ -138,6 +138,13 @@ impl Ctx {
         }
     }
 
+    pub fn model_dev(&mut self, detail: J) {
+        self.model_dev += 1;
+        if self.model_dev_samples.len() < 5 {
+            self.model_dev_samples.push(detail);
+        }
+    }
+
     pub fn deviation(&mut self, what: &str, detail: J) {
         self.deviations += 1;
         if self.deviation_samples.len() < 5 {
@@ -200,7 +207,9 @@ fn judge_decode(ctx: &mut Ctx, v: &J, api: &str, obs: &J) {
     let prop = main_prop(v);
     let accept = ex["accept"].as_bool().unwrap_or(false);
     if obs["kind"] == "panic" {
-        ctx.mismatch(&prop, v, "panic", json!({"api": api, "obs": obs}));
+        // a panicking decoder is a C01 matter wherever the vector lists C01
+        let pp = if ctx.prop == "C01" && v["props"].as_array().map(|a| a.iter().any(|x| x == "C01")).unwrap_or(false) { "C01".to_string() } else { prop };
+        ctx.mismatch(&pp, v, "panic", json!({"api": api, "obs": obs}));
         return;
     }
     let got_ok = obs["kind"] == "ok";
@@ -257,6 +266,9 @@ pub fn run_decode(ctx: &mut Ctx, v: &J) {
             let o = one.as_object_mut().unwrap();
             o.remove("multi");
             o.insert("ty".into(), m["ty"].clone());
+            if !m["reg"].is_null() {
+                o.insert("reg".into(), m["reg"].clone());
+            }
             o.insert("expect".into(), m["expect"].clone());
             run_decode(ctx, &one);
         }
